@@ -11,5 +11,5 @@ Extraction "model.ml" addZ add_wcZ add_wZ add_1Z subZ sub_wcZ sub_wZ sub_1Z cmpZ
   shlZ shrZ shl1Z shr1Z shl_extZ normZ
   udivZ div32Z div21Z divZ div_wZ mod_nZ gcdZ inv_modZ bezout_modZ exp_modZ exp_mod_wZ arazi_qiZ
   mpz_to_ruintZ mpz_to_rintZ rint_to_mpzZ
-  sdiv_qZ sdiv_rZ slmulZ slsquareZ scmpZ sextZ smod_nZ sinv_modZ.
+  sshrZ sdiv_qZ sdiv_rZ slmulZ slsquareZ scmpZ sextZ smod_nZ sinv_modZ.
 Cd "..".
